@@ -184,7 +184,8 @@ def rewrite_imports(source_code: str, mapping: MappingType) -> Union[str, None]:
         # (col offsets are in UTF-8 bytes)
         head = lines[start_line].encode()[:node.col_offset].decode()
         tail = lines[end_line].encode()[node.end_col_offset:].decode()
-        if head.strip() or tail.lstrip().startswith(';'):
+        # ... or the logical line goes on after a backslash (explicit line joining)
+        if head.strip() or tail.lstrip().startswith((';', '\\')):
             replacement_lines = [head + ''.join(replacement_lines).rstrip('\n') + tail]
         lines[start_line:end_line+1] = replacement_lines
 
